@@ -152,7 +152,7 @@ func runCheck(id, repo, verif, tier string, seed int, freeze bool, keep string, 
 		b, _ := os.ReadFile(lf)
 		body := string(b)
 		pre := d.preludeFor(body)
-		pre = strings.Replace(pre, ";@@DATA@@\n", d.w.DataDecls(), 1)
+		pre = strings.Replace(pre, ";@@DATA@@\n", d.dataDecls(), 1)
 		txt := "(set-option :produce-models true)\n(set-logic ALL)\n" + pre + body + "\n(check-sat)\n"
 		name := "lemma/" + strings.TrimSuffix(filepath.Base(lf), ".smt2")
 		r := runQuery(dir, name, txt, timeout)
